@@ -325,7 +325,13 @@ func (db *Backend) GetObject(bucketName, objectName string, rangeRequest *gofake
 			return gofakes3.KeyNotFound(objectName)
 		}
 
-		if err := bson.Unmarshal(v, &t); err != nil {
+		// v points into bolt's memory map and is only valid until the
+		// transaction ends; bson.Unmarshal does not copy byte slices (Contents,
+		// Hash) out of its input, so give it a copy that we own:
+		owned := make([]byte, len(v))
+		copy(owned, v)
+
+		if err := bson.Unmarshal(owned, &t); err != nil {
 			return fmt.Errorf("gofakes3: could not unmarshal object at %q/%q: %v", bucketName, objectName, err)
 		}
 
